@@ -487,7 +487,12 @@ fn gen_tree(rng: &mut Rng, depth: usize, max_doc: u32, pool: &mut Vec<Vec<u32>>)
         }
         4..=6 => {
             let n = *rng.pick(&[2usize, 2, 3, 4]);
-            T::Inter { cs: (0..n).map(|_| gen_tree(rng, depth - 1, max_doc, pool)).collect(), num_docs }
+            // `count_including_deleted` picks its branch from `left.size_hint()` at call time, which
+            // for union children depends on how many of their children are left; size hints are not
+            // modelled, so the branch is made independent of the state: segment_num_docs = 0 always
+            // takes the dense branch, u32::MAX the sparse one
+            let _ = num_docs;
+            T::Inter { cs: (0..n).map(|_| gen_tree(rng, depth - 1, max_doc, pool)).collect(), num_docs: if rng.chance(1, 2) { 0 } else { u32::MAX } }
         }
         7 | 8 => {
             let n = *rng.pick(&[1usize, 1, 2, 3]);
@@ -1042,6 +1047,9 @@ fn check_direct(ctx: &mut Ctx, t: &T, prog: &[Call], label: &str) -> bool {
             return true;
         }
     };
+    if label == "replay" {
+        ctx.report.notes.push(format!("model tree: {tree}"));
+    }
     // expected scores: the brute-force combination (equal to the fresh scorer's, checked above)
     let score_of = |d: u32| -> Option<String> { t.score_at(d).map(|x| format!("x:{x}")) };
     let mut first: Option<(String, String)> = incons.first().map(|x| ("C13:return-differs-from-doc".to_string(), x.clone()));
@@ -1392,6 +1400,37 @@ fn check_query(ctx: &mut Ctx, index: &Index, text: tantivy::schema::Field, spec:
             .ok()?;
             Some((o, d))
         };
+        let idx: usize = what.strip_prefix("call ").or_else(|| what.strip_prefix("after call ")).and_then(|r| r.split(' ').next()).and_then(|x| x.parse().ok()).unwrap_or(usize::MAX);
+        let seq_keys = ["C13:score-path-dependent", "C13:sequence-deviates", "C13:doc-after-call-deviates", "C13:seek-danger-bound-out-of-range",
+            "C13:seek-danger-missed-member", "C13:seek-danger-found-non-member", "C13:seek-danger-found-wrong-doc"];
+        if seq_keys.contains(&key.as_str()) && idx < prog.len() && prog[..=idx].iter().any(|c| matches!(c, Call::Danger(_))) {
+            // counterfactual for the seek_danger findings (5, 9): the same program with every
+            // seek_danger that finds its target replaced by seek, and the misses dropped
+            let mut cur = Cursor { all: &fdocs, pos: 0, danger: None, counted: false };
+            let mut prog2 = vec![];
+            for c in &prog[..=idx] {
+                if let Call::Danger(t) = c {
+                    let r = cur.step(c);
+                    if r == "F" {
+                        prog2.push(Call::Seek(*t));
+                    }
+                } else {
+                    prog2.push(c.clone());
+                    cur.step(c);
+                }
+            }
+            if cur.danger.is_none() {
+                if let Some((o2, d2)) = run_cf(&prog2) {
+                    if o2.len() == prog2.len() && judge_oracle("query", false, &fdocs, &prog2, &o2, &d2, &score_of, true).oracle.is_empty() {
+                        let k = if key == "C13:seek-danger-bound-out-of-range" { K_NESTED_UNION } else { K_CHILD_DANGER };
+                        ctx.report.count("query:counterfactual-confirms-seek-danger");
+                        ctx.report.violation("oracle", k, format!("{:?} (scoring {scoring}): {what}", q), case.clone());
+                        return;
+                    }
+                }
+            }
+            ctx.report.count("query:counterfactual-refutes-seek-danger");
+        }
         if key == "C13:score-path-dependent" {
             let i: usize = what.strip_prefix("call ").and_then(|r| r.split(' ').next()).and_then(|x| x.parse().ok()).unwrap_or(usize::MAX);
             if i < prog.len() && prog[..i].iter().any(|c| matches!(c, Call::Fill)) {
